@@ -941,13 +941,100 @@ func ruleSelfRename(c *Ctx, id string) {
 		g := staticCallee(in)
 		return g != nil && (g == addName || g == remName || g == V.DecLink || (V.DecLink != nil && g.Name() == "doDecLink"))
 	}
+	// the comparison may be made by a predicate ("sameEntry(dipfrom, dipto, frominum, toinum)"): a private
+	// helper that answers true only where two of its parameters - handed the two looked-up numbers - are equal
+	predEqual := func(call *ssa.Call) bool {
+		h := staticCallee(call)
+		if h == nil || !isPrivateHelper(h) || h.Blocks == nil || h.Signature.Results().Len() != 1 {
+			return false
+		}
+		var pi, pj *ssa.Parameter
+		var eq *ssa.BinOp
+		for _, b := range h.Blocks {
+			for _, in := range b.Instrs {
+				bo, ok := in.(*ssa.BinOp)
+				if !ok || bo.Op != token.EQL {
+					continue
+				}
+				x, okx := stripConv(bo.X).(*ssa.Parameter)
+				y, oky := stripConv(bo.Y).(*ssa.Parameter)
+				if okx && oky && isInumType(x.Type()) && isInumType(y.Type()) {
+					pi, pj, eq = x, y, bo
+				}
+			}
+		}
+		if eq == nil {
+			return false
+		}
+		idx := func(pm *ssa.Parameter) int {
+			for i, q := range h.Params {
+				if q == pm {
+					return i
+				}
+			}
+			return -1
+		}
+		args := fullArgs(call)
+		i, j := idx(pi), idx(pj)
+		if i < 0 || j < 0 || i >= len(args) || j >= len(args) || !fromLookup(args[i]) || !fromLookup(args[j]) {
+			return false
+		}
+		// true only where the two are equal
+		isEq := func(Subst) func(Cond) (bool, bool) {
+			return func(cd Cond) (bool, bool) {
+				if cd.Op == token.EQL && ((stripConv(cd.X) == ssa.Value(pi) && stripConv(cd.Y) == ssa.Value(pj)) || (stripConv(cd.X) == ssa.Value(pj) && stripConv(cd.Y) == ssa.Value(pi))) {
+					return true, true
+				}
+				return false, false
+			}
+		}
+		ok := true
+		seen := map[ssa.Value]bool{}
+		var walk func(v ssa.Value, from, to *ssa.BasicBlock, d int)
+		walk = func(v ssa.Value, from, to *ssa.BasicBlock, d int) {
+			if ph, isP := v.(*ssa.Phi); isP && d < 6 {
+				if seen[ph] {
+					return
+				}
+				seen[ph] = true
+				for k, e := range ph.Edges {
+					walk(e, ph.Block().Preds[k], ph.Block(), d+1)
+				}
+				return
+			}
+			if v == ssa.Value(eq) {
+				return
+			}
+			if bv, isb := constBool(v); isb {
+				if bv && (from == nil || !edgeGuardedX(h, from, to, isEq, nil, 0)) {
+					ok = false
+				}
+				return
+			}
+			ok = false
+		}
+		for _, b := range h.Blocks {
+			if r, isR := b.Instrs[len(b.Instrs)-1].(*ssa.Return); isR {
+				walk(r.Results[0], nil, nil, 0)
+			}
+		}
+		return ok
+	}
 	n := 0
 	for _, br := range branches(ren) {
-		if (br.Cond.Op != token.EQL && br.Cond.Op != token.NEQ) || br.Cond.X == nil || br.Cond.Y == nil {
-			continue
+		viaPred := false
+		if br.Cond.Op == token.ILLEGAL && br.Cond.X != nil {
+			if cl, isC := br.Cond.X.(*ssa.Call); isC && predEqual(cl) {
+				viaPred = true
+			}
 		}
-		if !isInumType(br.Cond.X.Type()) || !fromLookup(br.Cond.X) || !fromLookup(br.Cond.Y) {
-			continue
+		if !viaPred {
+			if (br.Cond.Op != token.EQL && br.Cond.Op != token.NEQ) || br.Cond.X == nil || br.Cond.Y == nil {
+				continue
+			}
+			if !isInumType(br.Cond.X.Type()) || !fromLookup(br.Cond.X) || !fromLookup(br.Cond.Y) {
+				continue
+			}
 		}
 		n++
 		side := br.True
